@@ -159,9 +159,9 @@ theorem handleU_wkst (k : Int) (h0 : 0 ≤ k) (h6 : k ≤ 6) : handleU po (lit "
   have : k = 0 ∨ k = 1 ∨ k = 2 ∨ k = 3 ∨ k = 4 ∨ k = 5 ∨ k = 6 := by omega
   rcases this with rfl | rfl | rfl | rfl | rfl | rfl | rfl <;> rfl
 
-theorem pieceOK_wkst (k : Int) (h0 : 0 ≤ k) (h6 : k ≤ 6) :
-    PieceOK po (if k != 0 then [lit "WKST=" ++ wdName k] else [])
-      (fun a => { a with wkst := if k != 0 then some k else a.wkst }) := by
+theorem pieceOK_wkst (k : Int) (h0 : 0 ≤ k) (h6 : k ≤ 6) (b : Bool) :
+    PieceOK po (if b then [lit "WKST=" ++ wdName k] else [])
+      (fun a => { a with wkst := if b then some k else a.wkst }) := by
   split
   · exact (PieceOK.single (name := lit "WKST") (by decide) (fun c hc => isAtom_isValC c (wdName_atoms k h0 h6 c hc))
       (handleU_wkst k h0 h6)).congr (fun _ => rfl)
@@ -330,14 +330,14 @@ structure Printable (x : StrIn) : Prop where
   wkst6 : x.wkst ≤ 6
   byweekday : ∀ l, x.orig.byweekday = some l → ∀ w ∈ l, NormalWDay w
 
-/-- the keyword arguments `str(rule)` spells out: FREQ always, INTERVAL unless 1, WKST unless MO, COUNT, UNTIL (its
+/-- the keyword arguments `str(rule)` spells out: FREQ always, INTERVAL unless 1, WKST unless it is MO and the ambient first weekday is Monday too, COUNT, UNTIL (its
     compact text, with the options it will be parsed with), and exactly the NON-EMPTY recorded BY-parts (`normL`: an empty
     recorded list is not printed, hence absent here — this is where `argsOf x` differs from the arguments the rule was
     built from) -/
 def argsOf (po : ParseOpts) (x : StrIn) : RArgs :=
   { freq := some (x.freq : Int),
     interval := if x.interval != 1 then some x.interval else none,
-    wkst := if x.wkst != 0 then some x.wkst else none,
+    wkst := if x.wkst != 0 || x.fwd != 0 then some x.wkst else none,
     count := x.count,
     untilV := x.untilV.map (fun t => (showDT t, po)),
     bysetpos := normL x.orig.bysetpos, bymonth := normL x.orig.bymonth, bymonthday := normL x.orig.bymonthday,
@@ -348,7 +348,7 @@ def argsOf (po : ParseOpts) (x : StrIn) : RArgs :=
 theorem partsOf_ok (x : StrIn) (hx : Printable x) :
     (partsOf x).foldlM (stepPair po) {} = .ok (argsOf po x) ∧ (∀ p ∈ partsOf x, GoodPart p) := by
   have h := ((((((((((((((pieceOK_freq (po := po) x.freq hx.freq).append (pieceOK_interval x.interval)).append
-    (pieceOK_wkst x.wkst hx.wkst0 hx.wkst6)).append (pieceOK_count x.count)).append (pieceOK_until x.untilV)).append
+    (pieceOK_wkst x.wkst hx.wkst0 hx.wkst6 (x.wkst != 0 || x.fwd != 0))).append (pieceOK_count x.count)).append (pieceOK_until x.untilV)).append
     (pieceOK_bysetpos x.orig.bysetpos)).append (pieceOK_bymonth x.orig.bymonth)).append
     (pieceOK_bymonthday x.orig.bymonthday)).append (pieceOK_byyearday x.orig.byyearday)).append
     (pieceOK_byweekno x.orig.byweekno)).append (pieceOK_byday _ hx.byweekday)).append
